@@ -1,5 +1,5 @@
 From Coq Require Import Extraction ExtrOcamlBasic.
 From Shisui Require Import Base.Bytes Base.Sha256 Base.Merkle Model.HeaderProof Model.HeaderProver Gen.K_header.
 Extraction Language OCaml.
-Extraction "c03_model.ml" build_accumulator_sha build_proof_sha acc_run_sha acc_new a_chunks validate_sha sparse_fill summary_index decode_post le2n
+Extraction "c03_model.ml" build_accumulator_sha build_proof_sha acc_run_sha acc_new a_chunks validate_sha run_history_sha sparse_fill summary_index decode_post le2n
   K_MergeBlockNumber K_ShanghaiBlockNumber K_CancunNumber K_epochSize K_EpochSize K_capellaForkEpoch K_slotsPerEpoch K_PreMergeEpochs.
